@@ -476,7 +476,7 @@ FaultViolations(S, S2, c, e, r, r0) ==
 \* general clauses that must hold whether or not a backend call fails
 FaultTolerantClauses == {"C01.sessionOnlyByCredential", "C01.otherBrowserUntouched", "C02.primaryOnlyParks",
                          "C03.noLoginWhileBlocked", "C03.middlewareBlocks", "C13.changeAuthorised", "C19.noAutoLoginUnderConfirm",
-                         "C19.neverOverwrites", "C19.invalidCreatesNothing"}
+                         "C19.neverOverwrites", "C19.invalidCreatesNothing", "C17.noPlaintextStoredOrLogged"}
 
 -----------------------------------------------------------------------------
 
